@@ -666,6 +666,34 @@ func (fr *Frame) assertAtStore(a Val, v Val) {
 }
 
 func (fr *Frame) assertAtCall(calleeName string, args []Val, sig *types.Signature) {
+	// statements moved into a helper that did not exist at the baseline (shape.go) are still statements of the
+	// function under contract: its un-numbered call clauses apply to the helper's call sites, evaluated in the
+	// host's environment at the point where the helper is called
+	for h := fr.host; h != nil; h = h.host {
+		if h.spec == nil {
+			continue
+		}
+		for _, c := range h.spec.Asserts {
+			if !strings.HasPrefix(c.Key, "call ") || strings.Contains(c.Key, "#") {
+				continue
+			}
+			sel := strings.TrimPrefix(c.Key, "call ")
+			if !calleeMatches(calleeName, sel) {
+				continue
+			}
+			h.matched[c] = true
+			env := h.envAt(h.block, h.idx, fr.cur.st, nil)
+			for i, a := range args {
+				env.names[fmt.Sprintf("arg%d", i)] = a
+			}
+			t, err := env.Goal(c.Expr)
+			if err != nil {
+				fr.e.unsupported = append(fr.e.unsupported, fmt.Sprintf("%s: assert-at %s:%d: %v", fr.prefix, c.File, c.Line, err))
+				continue
+			}
+			fr.obligeAt(fr.cur.reach, "assert-at", "call("+sel+")["+labelOr(c)+"]", t, c.Src)
+		}
+	}
 	if fr.spec == nil {
 		return
 	}
@@ -886,6 +914,10 @@ func (fr *Frame) callCommon(cc *ssa.CallCommon, args []Val, fv Val, res ssa.Valu
 			return fr.inline(callee, args, bindings, resT)
 		}
 	}
+	if sp == nil && e.newHelpers[callee] && e.inlineDepth < 6 {
+		fr.hostNext = true
+		return fr.inline(callee, args, bindings, resT)
+	}
 	if sp != nil {
 		fr.callCallee, fr.callBindings = callee, bindings
 		defer func() { fr.callCallee, fr.callBindings = nil, nil }()
@@ -1080,8 +1112,20 @@ func (fr *Frame) inline(callee *ssa.Function, args []Val, bindings []Val, resT t
 		}
 	}
 	sub.inlined = true
+	if fr.hostNext {
+		fr.hostNext = false
+		sub.host = fr
+	}
 	outReach, outSt, results := sub.exec(fr.cur.reach, fr.cur.st)
 	fr.cur = &Cur{outReach, outSt}
+	if sub.host != nil {
+		// results of calls made by the helper are results of calls made by the host
+		for k, v := range sub.lastRes {
+			if !strings.Contains(k, "#") {
+				fr.lastRes[k] = v
+			}
+		}
+	}
 	if _, ok := resT.(*types.Tuple); ok {
 		return Val{Tuple: results, Ty: resT}
 	}
